@@ -308,6 +308,115 @@ func headerUnit(c *core.Ctx) {
 	c.Sample(map[string]any{"header_permutations": 24, "columns": cols})
 }
 
+// ---------------------------------------------------------------- one codec instance used for reads and writes
+
+// instanceReuseUnit: all sequences (length <= maxLen) of reads of differently laid out files, writes and appends on
+// ONE Csv instance; after every write/append the file is read back with a fresh codec and with the same instance.
+func instanceReuseUnit(c *core.Ctx, maxLen int) {
+	rowsA := []*rowP{{"a b", 7, 0.25, true}, {`q"r`, -3, 1e21, false}}
+	rowsB := []*rowP{{"z", 1, 0.5, true}}
+	layouts := map[string]string{
+		"read-natural":  "w,x,y,z\nn,1,1.5,true\n",
+		"read-permuted": "z,y,x,w\ntrue,1.5,1,n\n",
+		"read-rotated":  "y,z,w,x\n1.5,true,n,1\n",
+		"read-missing":  "w,z\nn,true\n",
+		"read-extra":    "extra,w,x,y,z\ne,n,1,1.5,true\n",
+	}
+	wantRead := map[string]*rowP{
+		"read-natural": {"n", 1, 1.5, true}, "read-permuted": {"n", 1, 1.5, true}, "read-rotated": {"n", 1, 1.5, true},
+		"read-missing": {"n", 0, 0, true}, "read-extra": {"n", 1, 1.5, true},
+	}
+	ops := []string{"read-natural", "read-permuted", "read-rotated", "read-missing", "read-extra", "write", "append"}
+	dir := mustTempDir("c11i")
+	defer os.RemoveAll(dir)
+	file := filepath.Join(dir, "i.csv")
+	var n int64
+	var rec func(hist []string)
+	rec = func(hist []string) {
+		if len(hist) > 0 {
+			os.Remove(file)
+			viol := ""
+			res := mc.Run(func() {
+				cs, _ := helper.NewCsv[rowP](true)
+				cs.Logger = quietLogger
+				var model []*rowP
+				exists := false
+				for i, op := range hist {
+					switch op {
+					case "write":
+						if err := cs.WriteToFile(file, Feed(rowsA, 0)); err != nil {
+							viol = fmt.Sprintf("step %d write failed: %v", i, err)
+							return
+						}
+						model, exists = append([]*rowP{}, rowsA...), true
+					case "append":
+						if !exists {
+							continue
+						}
+						if err := cs.AppendToFile(file, Feed(rowsB, 0)); err != nil {
+							viol = fmt.Sprintf("step %d append failed: %v", i, err)
+							return
+						}
+						model = append(model, rowsB...)
+					default:
+						got := drain(cs.ReadFromReader(strings.NewReader(layouts[op])))
+						if !rowsEq(got, []*rowP{wantRead[op]}) {
+							viol = fmt.Sprintf("step %d %s: read %s, expected %s", i, op, descRows(got), descRows([]*rowP{wantRead[op]}))
+							return
+						}
+						continue
+					}
+					// read back with a fresh codec and with the same instance
+					ch, err := helper.ReadFromCsvFile[rowP](file, true)
+					if err != nil {
+						viol = fmt.Sprintf("after step %d %s the file cannot be read: %v", i, op, err)
+						return
+					}
+					if got := drain(ch); !rowsEq(got, model) {
+						viol = fmt.Sprintf("after step %d %s a fresh codec reads %s, written so far %s", i, op, descRows(got), descRows(model))
+						return
+					}
+					ch, err = cs.ReadFromFile(file)
+					if err != nil {
+						viol = fmt.Sprintf("after step %d %s the writing codec cannot read its file: %v", i, op, err)
+						return
+					}
+					if got := drain(ch); !rowsEq(got, model) {
+						viol = fmt.Sprintf("after step %d %s the writing codec reads %s, written so far %s", i, op, descRows(got), descRows(model))
+						return
+					}
+				}
+			}, mc.Options{})
+			n++
+			c.Executions++
+			c.Transitions += int64(res.Events)
+			if viol == "" && len(res.Panics) > 0 {
+				viol = "panic: " + res.Panics[0].Value
+			}
+			if viol == "" && res.Deadlock {
+				viol = "hang: " + blockedDesc(res)
+			}
+			if viol != "" {
+				c.Fail("", fmt.Sprintf("one Csv codec instance, operations %v: %s", hist, viol), map[string]any{"operations": hist})
+			} else {
+				c.Nontrivial++
+			}
+			if n == 40 {
+				c.Sample(map[string]any{"codec_instance_operations": hist})
+			}
+		}
+		if len(hist) == maxLen {
+			return
+		}
+		for _, op := range ops {
+			rec(append(append([]string{}, hist...), op))
+		}
+	}
+	rec(nil)
+	c.States += n
+	c.Evaluations += n
+}
+
 // ---------------------------------------------------------------- file histories
 
 type fileOp struct {
@@ -452,7 +561,7 @@ func jsonRT[T any](c *core.Ctx, label string, vals []T) {
 func init() {
 	core.Register(&core.Check{
 		ID:   "C11",
-		Rule: "(a) full cartesian products of per-kind boundary catalogues for five row shapes (strings incl. quotes/commas/newlines/unicode, bool, int8..int64, uint8..uint64, float32/float64 incl. -0, subnormals, max, NaN, Inf, time.Time in both formats) plus asset.Snapshot and a one-column shape, each row alone and all rows in one file, with and without header, through WriteToFile/ReadFromFile; (b) all 24 header permutations of a 4-column shape, with an extra column at every position, and each column missing; (c) explicit-state BFS over WriteToFile/AppendToFile/AppendOrWriteToCsvFile histories (4 row lists, depth 4 / 5 thorough) deduplicated on the file bytes with a list model read back after every step; (d) ChanToJSON->JSONToChan on the same catalogues. Every case is one controlled execution of the real codec. states = cases / BFS states; non-trivial = cases that round-tripped",
+		Rule: "(a) full cartesian products of per-kind boundary catalogues for five row shapes (strings incl. quotes/commas/newlines/unicode, bool, int8..int64, uint8..uint64, float32/float64 incl. -0, subnormals, max, NaN, Inf, time.Time in both formats) plus asset.Snapshot and a one-column shape, each row alone and all rows in one file, with and without header, through WriteToFile/ReadFromFile; (b) all 24 header permutations of a 4-column shape, with an extra column at every position, and each column missing; (c) explicit-state BFS over WriteToFile/AppendToFile/AppendOrWriteToCsvFile histories (4 row lists, depth 4 / 5 thorough) deduplicated on the file bytes with a list model read back after every step; (d) ChanToJSON->JSONToChan on the same catalogues; (e) all sequences (length <= 4 / 5) of reads of five differently laid out files (permuted, missing, extra columns), writes and appends on ONE codec instance, read back with a fresh codec and with the same instance. Every case is one controlled execution of the real codec. states = cases / BFS states; non-trivial = cases that round-tripped",
 		Assume: []string{"carriage returns are excluded (encoding/csv normalises \\r\\n inside quoted fields); JSON floats are finite; times are whole seconds (default format) or whole days (date format) in UTC",
 			"AppendToFile is only applied to an existing file that already has content (it presupposes the header)"},
 		Units: func(tier string) []core.Unit {
@@ -541,6 +650,7 @@ func init() {
 			}})
 			us = append(us, core.Unit{Key: "csv-header", Cost: 5, Run: headerUnit})
 			us = append(us, core.Unit{Key: "csv-file-histories", Cost: 40, Run: func(c *core.Ctx) { fileHistUnit(c, depth) }})
+			us = append(us, core.Unit{Key: "csv-instance-reuse", Cost: 30, Run: func(c *core.Ctx) { instanceReuseUnit(c, depth) }})
 			us = append(us, core.Unit{Key: "json", Cost: 10, Run: func(c *core.Ctx) {
 				jsonRT(c, "string", catStrings)
 				jsonRT(c, "float64", catF64[:9])
